@@ -257,3 +257,122 @@ def r_close_unknown_only(ctx):
                    "%s consults the closing predicate although the innermost open master has a known size" % e["fn"])
     rep.oblige(True, "CLOSE-UNKNOWN-ONLY|read_next|run", res["entry"], "")
     return rep
+
+
+# ----------------------------------------------------------------------------------------------
+# the path matcher, decided per class of (declared path, chain of open known-size masters)
+# ----------------------------------------------------------------------------------------------
+A_ID, B_ID = 0x10, 0x20
+
+# path parts: ("id", n) | ("g", min|None, max|None);  chain: (list of leading ids, tail length interval or None) — tail ids are OTHER
+MATCHER_CLASSES = [
+    ("exact", [("id", A_ID), ("id", B_ID)], ([A_ID, B_ID], None), 1, "the chain is exactly the declared path"),
+    ("root-at-top", [], ([], None), 1, "a root element with no master open"),
+    ("root-inside-master", [], ([], (1, BIG)), 0, "a root element while any master is open"),
+    ("deeper-than-declared", [("id", A_ID)], ([A_ID], (1, BIG)), 0, "masters are open below the declared parent"),
+    ("shallower-than-declared", [("id", A_ID), ("id", B_ID)], ([A_ID], None), 0, "the declared parent is not open"),
+    ("wrong-parent", [("id", A_ID)], ([], (1, 1)), 0, "the open master is not the declared parent"),
+    ("wrong-order", [("id", A_ID), ("id", B_ID)], ([B_ID, A_ID], None), 0, "the declared parents are open in the wrong order"),
+    ("trailing-placeholder-within", [("id", A_ID), ("g", 1, 2)], ([A_ID], (1, 2)), 1, "between min and max arbitrary masters follow the named parent"),
+    ("trailing-placeholder-exceeded", [("id", A_ID), ("g", 1, 2)], ([A_ID], (3, 3)), 0, "more masters than the placeholder's maximum"),
+    ("trailing-placeholder-far-exceeded", [("id", A_ID), ("g", None, 2)], ([A_ID], (4, 4)), 0, "more masters than the placeholder's maximum"),
+    ("trailing-placeholder-below-min", [("id", A_ID), ("g", 1, None)], ([A_ID], None), 0, "fewer masters than the placeholder's minimum"),
+    ("trailing-placeholder-open", [("id", A_ID), ("g", None, None)], ([A_ID], (0, 3)), 1, "an unbounded placeholder accepts any number of masters"),
+    ("global-element-at-top", [("g", None, None)], ([], None), 1, "a global element with no master open"),
+    ("global-element-min-at-top", [("g", 1, None)], ([], None), 0, "a global element that needs a parent, with no master open"),
+    ("global-element-inside", [("g", 1, None)], ([], (1, 3)), 1, "a global element inside masters"),
+    ("intermediate-placeholder-empty", [("id", A_ID), ("g", 0, 1), ("id", B_ID)], ([A_ID, B_ID], None), 1, "an intermediate placeholder (0-1) matching no master"),
+    ("intermediate-placeholder-one", [("id", A_ID), ("g", 0, 1), ("id", B_ID)], ([A_ID], (1, 1), [B_ID]), 1, "an intermediate placeholder (0-1) matching one master"),
+    ("intermediate-placeholder-exceeded", [("id", A_ID), ("g", 0, 1), ("id", B_ID)], ([A_ID], (2, 2), [B_ID]), 0, "an intermediate placeholder (0-1) cannot match two masters"),
+    ("intermediate-placeholder-below-min", [("id", A_ID), ("g", 1, None), ("id", B_ID)], ([A_ID, B_ID], None), 0, "an intermediate placeholder (1-) needs a master between the named ones"),
+    ("intermediate-placeholder-min-met", [("id", A_ID), ("g", 1, None), ("id", B_ID)], ([A_ID], (1, 1), [B_ID]), 1, "an intermediate placeholder (1-) with one master between the named ones"),
+]
+
+
+def _matcher_class_run(prog, parts, chain):
+    body = find_one(prog, MATCHER)
+    eng = absrun.make_engine(prog, no_inline=[PRED])
+    eng.models = dict(eng.models)
+    eng.models["#prefix"] = [(p, f) for (p, f) in eng.models["#prefix"] if not p.startswith(("ebml_iterable_specification::", "EbmlSpecification::", "EbmlTag::"))]
+    consulted = {"n": 0}
+
+    def m_pred(c):
+        consulted["n"] += 1
+        c.ret(Int.boolean())
+    eng.models[PRED] = m_pred
+
+    def m_path(c):
+        ty = c.ret_ty() or {}
+        el = (ty.get("to") or {}).get("of")
+        if el is None:
+            raise AnchorLost("get_path_by_id no longer returns a slice of path parts")
+        path = el.get("path", "")
+        info = eng.adt_info(path)
+        if info is None or sorted(v["name"] for v in info["variants"]) != ["Global", "Id"]:
+            raise AnchorLost("PathPart is no longer the two-variant enum {Id, Global}")
+        idx = {v["name"]: v.get("discr", i) for i, v in enumerate(info["variants"])}
+
+        def opt(x):
+            return Enum(OPTION, {0: ()}) if x is None else Enum(OPTION, {1: (Int.const(x, 64, False),)})
+        cells = {}
+        for i, p in enumerate(parts):
+            if p[0] == "id":
+                cells[i] = Enum(path, {idx["Id"]: (Int.const(p[1], 64, False),)})
+            else:
+                cells[i] = Enum(path, {idx["Global"]: (Struct("tuple", [opt(p[1]), opt(p[2])]),)})
+        cell = ("H", "path", "tag")
+        c.st.cells[cell] = Arr(Int.const(len(parts), 64, False), Top() if not parts else cells[0], cells or None, "slice")
+        c.ret(Ref(cell, ()))
+    eng.models["ebml_iterable_specification::EbmlSpecification::get_path_by_id"] = m_path
+    info = eng.adt_info("tag_iterator_util::EBMLSize")
+    if info is None:
+        raise AnchorLost("EBMLSize not found")
+    known = [v["name"] for v in info["variants"]].index("Known")
+
+    def item(idv):
+        return Struct("tuple", [idv, Enum("tag_iterator_util::EBMLSize", {known: (Int(0, ISIZE_MAX, 64, False),)}), Int(0, 8, 64, False)])
+    lead, tail = chain[0], chain[1]
+    trail = chain[2] if len(chain) > 2 else []
+    other = item(Int(OTHER[0], OTHER[1], 64, False))
+    cells = {i: item(Int.const(x, 64, False)) for i, x in enumerate(lead)}
+    lo = len(lead) + (tail[0] if tail else 0) + len(trail)
+    hi = len(lead) + (tail[1] if tail else 0) + len(trail)
+    if trail:
+        if not tail or tail[0] != tail[1]:
+            raise ValueError("a trailing named master needs a tail of fixed length")
+        for j in range(tail[0]):
+            cells[len(lead) + j] = other
+        for j, x in enumerate(trail):
+            cells[len(lead) + tail[0] + j] = item(Int.const(x, 64, False))
+    elif tail and tail[1] <= 4:
+        for j in range(tail[0]):
+            cells[len(lead) + j] = other
+
+    def setup(eng_, st, frame):
+        st.cells[frame.cell(1)] = Int.const(TEST_ID, 64, False)
+        st.cells[frame.cell(2)] = Iter("slice", Int(lo, hi, 64, False) if lo != hi else Int.const(lo, 64, False), other, extra="val", cells=cells or None, pos=0)
+    exits, frame = absrun.analyze(eng, body, None, setup)
+    got = set()
+    for e in exits:
+        v = ret_value(e, frame)
+        got |= {v.lo} if isinstance(v, Int) and v.is_const() else {0, 1}
+    bad = [o for o in eng.obligations.values() if not o.ok]
+    return got, bad, consulted["n"], body
+
+
+def r_matcher_table(ctx):
+    rep = RuleReport("R-MATCHER-TABLE", "abstract interpretation of the path matcher per class of (declared path, chain of open known-size masters): exact chain, "
+                     "root element with and without open masters, chain deeper / shallower than declared, wrong parent, wrong order, trailing and "
+                     "intermediate placeholders at, within and beyond their bounds, global elements: the answer is the one the declared-path "
+                     "semantics prescribes; tails of chains are of arbitrary length and arbitrary other ids where the class allows")
+    prog = ctx.prog
+    for name, parts, chain, want, why in MATCHER_CLASSES:
+        got, bad, n_pred, body = _matcher_class_run(prog, parts, chain)
+        rep.instance("%s: answers %s, prescribed %s" % (name, sorted(got), want))
+        rep.oblige(got == {want}, "MATCHER|%s" % name, body.span,
+                   "path matcher, class '%s' (%s): possible answers %s, prescribed %s" % (name, why, sorted(bool(x) for x in got), bool(want)))
+        rep.oblige(not bad, "MATCHER|%s|total" % name, body.span, "path matcher, class '%s': may panic (%s)" % (name, [o.desc for o in bad][:2]))
+        rep.oblige(n_pred == 0, "MATCHER|%s|known-only" % name, body.span, "path matcher, class '%s': consults the closing predicate for known-size masters" % name)
+    rep.analysed.append(MATCHER)
+    rep.require_floor(len(MATCHER_CLASSES), "path/chain classes")
+    return rep
